@@ -338,6 +338,24 @@ fn run<const N: usize>(c: &Case, rec: &Rec) -> R {
             let i = idxs[pick_idx(*sel, idxs.len())];
             if let Some(bytes) = change_atom(&img, i, chg) {
                 let what = format!("atom/{}", img.atoms[i].field);
+                let known = ["commitment", "scalar_commitment", "blinding_factor_response_scalar", "message_response_scalars", "sigma1", "sigma2"];
+                if !known.contains(&img.atoms[i].field.as_str()) {
+                    // a field the relations do not mention (a proof type carrying more than the
+                    // relation's atoms): the property still says that changing any single field of
+                    // an accepted proof makes it reject
+                    rec.eval(1);
+                    let lib = lib_verify(kind, &bytes, ch, &own);
+                    if lib == Some(true) {
+                        return Err(Fail::new(
+                            format!("C11/{:?}/single-field-change-accepted", kind),
+                            format!("proof still accepted after replacing its field '{}' ({:?} N={})", img.atoms[i].path, kind, N),
+                        )
+                        .obs("accepted", "rejected"));
+                    }
+                    rec.class(&format!("{:?}/atom-outside-the-relations/reject", kind));
+                    rec.nontrivial((format!("{:?}", kind), N, c.key, format!("{}:{:?}", img.atoms[i].path, chg)));
+                    return Ok(());
+                }
                 compare(rec, &what, lib_verify(kind, &bytes, ch, &own), ref_verify(kind, &img, &bytes, &cs, &own), Some(false), N, kind)?;
                 fp = format!("{}:{:?}", img.atoms[i].path, chg);
             }
